@@ -127,13 +127,13 @@ ElemOK ==
         FxNear(Atan2Deg(k.e, FxMulInt(SinDegK(k.e, FxInt(h)), 37), FxMulInt(CosDegK(k.e, FxInt(h)), 37)), FxInt(h), 85, 200)
    /\ FxNear(SinDegK(k.e, FxInt(30)), FxRat(1, 2), 90, 200) /\ FxNear(CosDegK(k.e, FxInt(-780)), FxRat(1, 2), 90, 200)
    /\ FxNear(SinDegK(k.e, FxInt(1086)), SinCosDeg(FxInt(1086))[1], 90, 200)
-   /\ k.p25_7 = FxMulInt(FxMulInt(FxInt(78125), 78125), 1)                                              \* 25^7 = 5^14 = 78125^2
+   /\ k.p25_7 = FxMulInt(FxInt(78125), 78125)                                              \* 25^7 = 5^14 = 78125^2
    (* the closed-form relations accept exact points and reject perturbed ones *)
    /\ PowRelBits(FxOne, DyFromInt(5), DyFromInt(25), 1, 2) >= 90                                        \* 5^2 = 25
    /\ PowRelBits(FxOne, FxDy(FxAdd(FxInt(5), FxEps(30))), DyFromInt(25), 1, 2) < 36
    /\ PowRelBits(k.c143_10, FxDy(FxRat(143, 100)), DyFromInt(1), 7, 10) >= 90                           \* 1.43 * 1^0.7
    /\ PowRelBits(k.c126_40, FxDy(FxRat(126, 100)), DyFromInt(1), 11, 40) >= 90
-   /\ PowRelBits(k.c141_200, FxDy(FxMulInt(FxRat(141, 100), 2)), FxDy(FxPow(FxInt(2), 0)), 63, 200) < 10     \* off by a factor 2
+   /\ PowRelBits(k.c141_200, FxDy(FxMulInt(FxRat(141, 100), 2)), DyFromInt(1), 63, 200) < 10     \* off by a factor 2
    /\ HyabBits(DyFromInt(12), <<DyFromInt(10), DyFromInt(1), DyFromInt(2)>>, <<DyFromInt(3), DyFromInt(4), DyFromInt(6)>>) >= 90   \* 7 + 5
    /\ HyabBits(DyFromInt(12), <<DyFromInt(1), DyFromInt(10), DyFromInt(2)>>, <<DyFromInt(4), DyFromInt(3), DyFromInt(6)>>) < 10   \* L and a swapped
    /\ ContrastBits(FxInt(21), FxOne, FxZero) >= 90 /\ ContrastBits(FxInt(20), FxOne, FxZero) < 10
